@@ -350,8 +350,54 @@ func checkServiceSends(p *core.Program, r *core.Report, pkgRel, typ string) {
 	r.Count("blocking sends in service goroutines of "+typ, n)
 }
 
+// checkBBCExpiry — necessary for "if a fragment is lost the receiver signals
+// failure": the loss of a fragment is noticed only when a later fragment of
+// the same transmission arrives. When the last fragment is the lost one,
+// nothing follows; only a timeout can notice it (and free the partial
+// transmission, whose ID would make the next transmission with that ID fail).
+// Some removal from Connector.transmissions must be driven by time.
+func checkBBCExpiry(p *core.Program, r *core.Report) {
+	pkg := p.Pkg(bbcPkg)
+	timed := map[*ssa.Function]bool{}
+	var deleters []*ssa.Function
+	nDel := 0
+	for _, fn := range p.RepoFuncs() {
+		if fn.Pkg != pkg {
+			continue
+		}
+		core.EachInstr(fn, func(in ssa.Instruction) {
+			c, ok := in.(*ssa.Call)
+			if !ok {
+				return
+			}
+			switch core.CalleeName(c) {
+			case "time.After", "time.NewTicker", "time.NewTimer", "time.Since", "time.Tick", "time.AfterFunc":
+				timed[topFunc(fn)] = true
+			}
+			if b, ok := c.Common().Value.(*ssa.Builtin); ok && b.Name() == "delete" && pathEndsWith(c.Common().Args[0], "transmissions") {
+				nDel++
+				deleters = append(deleters, topFunc(fn))
+			}
+		})
+	}
+	ok := false
+	for tf := range timed {
+		reach := p.Reachable([]*ssa.Function{tf}, func(f *ssa.Function) bool { return f.Pkg == pkg })
+		for _, d := range deleters {
+			if reach[d] || d == tf {
+				ok = true
+			}
+		}
+	}
+	r.Count("removals from Connector.transmissions", nDel)
+	r.Min("removals from Connector.transmissions", 1)
+	conn := p.Func(bbcPkg, "Connector", "handleIncomingFragment")
+	r.Check(ok, "bbc/incomplete-transmission-expiry", "an incomplete incoming transmission is given up after some time (a removal from Connector.transmissions is reachable from code driven by a timer): the loss of the last fragment of a train can only be noticed by a timeout", p.Pos(conn.Pos()), "", "entries of Connector.transmissions are removed only when a further fragment of the same transmission arrives (finished or out of sequence): if the last fragment is lost the receiver never broadcasts a failure fragment, the sender's Send has returned nil, the bundle is silently gone and the partial transmission stays for ever")
+}
+
 func checkBBC(p *core.Program, r *core.Report) {
 	checkServiceSends(p, r, bbcPkg, "Connector")
+	checkBBCExpiry(p, r)
 	rf := p.Func(bbcPkg, "IncomingTransmission", "ReadFragment")
 	// payload append guarded by the four checks
 	nApp := 0
